@@ -3,6 +3,7 @@ from __future__ import annotations
 
 import asyncio
 import base64
+import re
 
 from peers import c2x as X
 from simkit import h1gen as G
@@ -35,7 +36,7 @@ ASSUMPTIONS = ["VLoop keeps asyncio FIFO semantics; SimNet pipes behave like rel
                "the upstream proxy peer is a plain RFC 9110 CONNECT/absolute-form proxy that tunnels bytes verbatim",
                "the credential marker is unique: it cannot occur in any byte string the client sends"]
 EXPECTED_PROBES = ["proxy_connect", "proxy_absolute", "tunnel_plain_request", "tunnel_tls_request", "reverse_request",
-                   "origin_request", "upstream_proxy_tls", "marker_at_proxy", "marker_at_reverse_target", "no_auth_runs"]
+                   "origin_request", "upstream_proxy_tls", "absolute_https_in_tunnel", "marker_at_proxy", "marker_at_reverse_target", "no_auth_runs"]
 
 UP_HTTP = "upstream:http://p.test:3128"
 UP_HTTPS = "upstream:https://p.test:3128"
@@ -85,8 +86,10 @@ def generate(rng, tier):
         entry = {}
         if fam in ("regular", "upstream"):
             for _ in range(r.choice([0, 0, 1, 1, 2])):
-                if r.random() < 0.15:
-                    steps.append(_req(r, nt(), "absolute", "https", f"o{r.randrange(3)}.test", 443))
+                # "GET https://host/..." sent to the proxy directly (no CONNECT by the client): in upstream mode the proxy
+                # itself CONNECTs through the upstream proxy, does TLS with the origin and sends the request inside
+                if r.random() < (0.4 if fam == "upstream" else 0.15):
+                    steps.append(_req(r, nt(), "absolute", "https", f"o{r.randrange(3)}.test", r.choice([443, 443, 8443])))
                 else:
                     steps.append(_req(r, nt(), "absolute", "http", f"o{r.randrange(3)}.test", r.choice([80, 80, 8080])))
             if r.random() < 0.8 or not steps:
@@ -270,6 +273,9 @@ def run(sc, keep_log=False):
 # ---------------------------------------------------------------------------
 # oracle
 # ---------------------------------------------------------------------------
+TOK_RE = re.compile(rb"/r(\d+)$")
+
+
 def markers(auth: str):
     """Byte strings that reveal the credential: the Basic token, the raw pair, and the password alone."""
     raw = auth.encode("utf8")
@@ -293,12 +299,27 @@ def oracle(sc, log, w):
     if not auth:
         bump("no_auth_runs")
     want = b"Basic " + base64.b64encode(auth.encode("utf8")) if auth else None
+    shape_of = {}
+    for c in sc.get("clients", []):
+        for s in c.get("steps", []):
+            if s.get("op") == "req":
+                shape_of[s["tok"]] = f"{s.get('form')}-{s.get('scheme')}"
     for e in log:
         m = e.get("msg")
         zone = e["zone"]
         if m is None:
+            # bytes the peer could not read as a complete request: the credential must not be in there either
+            if auth and any(x in e.get("raw", b"") for x in markers(auth)) and not (zone == "proxy" and fam == "upstream"):
+                v.append({"class": "credential_leak",
+                          "key": {"mode": fam, "zone": zone + ("_tls" if zone == "tunnel" and e["tls"] else ""),
+                                  "peer_tls": bool(e["tls"]), "header": "(unparsed bytes)", "request": "incomplete"},
+                          "msg": f"upstream_auth credential inside unparsed bytes received by {zone} peer {e['addr']}"})
             continue
         is_connect = m.method.upper() == b"CONNECT"
+        tm = TOK_RE.search(m.target)
+        shape = shape_of.get(int(tm.group(1)), "?") if tm else ("connect" if is_connect else "?")
+        if zone == "tunnel" and e["tls"] and shape == "absolute-https":
+            bump("absolute_https_in_tunnel")
         if zone == "proxy":
             bump("proxy_connect" if is_connect else "proxy_absolute")
             if e["tls"]:
@@ -330,9 +351,12 @@ def oracle(sc, log, w):
             place = zone
             if zone == "origin" and reverse_addr and tuple(e["addr"]) == reverse_addr:
                 place = "reverse_target"
+            if zone == "tunnel" and e["tls"]:
+                place = "tunnel_tls"   # TLS with the origin inside the tunnel (https), as opposed to plain HTTP in a tunnel
             v.append({"class": "credential_leak",
                       "key": {"mode": fam, "zone": place, "peer_tls": bool(e["tls"]), "header": name.decode("latin1"),
-                              "request": "connect" if is_connect else ("absolute" if b"://" in m.target else "origin-form")},
+                              "request": "connect" if is_connect else ("absolute" if b"://" in m.target else "origin-form"),
+                              "client_shape": shape},
                       "msg": f"upstream_auth credential received by {place} peer {e['addr']} (conn {e['conn']}, "
                              f"{'TLS' if e['tls'] else 'plain'}) in {name.decode('latin1')!r} of "
                              f"{m.method.decode('latin1')} {m.target.decode('latin1')}"})
